@@ -81,7 +81,7 @@ pub open spec fn win_from<T>(s: Seq<T>, n: int, k: int, r: Seq<&[T]>) -> bool {
 }
 pub assume_specification<'a, T>[ <[T]>::windows ](s: &'a [T], n: usize) -> (r: Windows<'a, T>)
     requires n != 0,
-    ensures r.obeys_prophetic_iter_laws(), win_from(s@, n as int, 0, r.remaining());
+    ensures r.obeys_prophetic_iter_laws(), r.decrease() is Some, win_from(s@, n as int, 0, r.remaining());
 // TRUSTED: `for x in &mut vec` is `vec.iter_mut()` (impl IntoIterator for &mut Vec): yields a mutable reference to every element in order;
 // same shape as vstd's specification of <[T]>::iter_mut (current values = old vector, final values = final vector)
 pub assume_specification<'a, T, A: std::alloc::Allocator>[ <&'a mut Vec<T, A> as IntoIterator>::into_iter ](v: &'a mut Vec<T, A>) -> (r: <&'a mut Vec<T, A> as IntoIterator>::IntoIter)
@@ -167,16 +167,457 @@ pub open spec fn cell_text(rw: int, f: int) -> Seq<char> { dollar(!f_col_rel(f))
 /// [MS-XLS] 2.5.198.107 RgceArea: rowFirst, rowLast, columnFirst, columnLast -- each column field carries the flags of its own corner
 pub open spec fn area_text(rw1: int, rw2: int, f1: int, f2: int) -> Seq<char> { cell_text(rw1, f1) + seq![':'] + cell_text(rw2, f2) }
 
+// =====================================================================================================================
+// ORACLE, written from [MS-XLSB] 2.5.97 (formula tokens) and the property text -- independent of the code
+// =====================================================================================================================
+/// [MS-XLSB] 2.5.97.86 RgceLoc: row (4 bytes, 0-based, < 1048576), column field (2 bytes, ColRelShort 2.5.22): col (bits 0-13), fColRel
+/// (bit 14), fRwRel (bit 15) -- the same three sub-fields as f_col / f_col_rel / f_row_rel above.  [MS-XLSB] 2.5.97.85 RgceArea: rowFirst,
+/// rowLast (4 bytes each), columnFirst, columnLast (ColRelShort each): each column field carries the flags of its own corner.
+pub open spec fn xb_cell(d: Seq<u8>) -> Seq<char> { cell_text(le32(d), le16(d.skip(4))) }
+pub open spec fn xb_area(d: Seq<u8>) -> Seq<char> { area_text(le32(d), le32(d.skip(4)), le16(d.skip(8)), le16(d.skip(10))) }
+pub open spec fn xb_row_ok(rw: int) -> bool { rw < 1048576 }
+
+/// what the renderer is given: the extern-sheet list (the name each ixti designates, resolved by read_workbook) and the defined names
+pub struct Ctx { pub sheets: Seq<Seq<char>>, pub names: Seq<Seq<char>> }
+pub open spec fn mk_ctx(sheets: Seq<String>, names: Seq<(String, String)>) -> Ctx {
+    Ctx { sheets: Seq::new(sheets.len(), |i: int| sheets[i]@), names: Seq::new(names.len(), |i: int| names[i].0@) }
+}
+/// what a token does to the stack of rendered operands
+pub enum Tok {
+    Operand(Seq<char>),      // pushes its text
+    Binary(Seq<char>),       // a b -> a OP b
+    Prefix(char),            // a -> OP a
+    Percent,                 // a -> a%
+    Paren,                   // a -> (a)
+    Func(Seq<char>, int),    // a1 .. an -> NAME(a1,..,an)
+    Sum,                     // a -> SUM(a)     (PtgAttrSum)
+    Skip,                    // no display effect
+}
+/// [MS-XLSB] 2.5.97.16 Ptg table (the same numbering as [MS-XLS] 2.5.198.25), binary operators 0x03 - 0x11:
+/// PtgAdd 03, PtgSub 04, PtgMul 05, PtgDiv 06, PtgPower 07, PtgConcat 08, PtgLt 09, PtgLe 0A, PtgEq 0B, PtgGe 0C, PtgGt 0D, PtgNe 0E,
+/// PtgIsect 0F (space), PtgUnion 10 (comma), PtgRange 11 (colon)
+pub open spec fn binop(p: int) -> Seq<char> {
+    if p == 0x03 { "+"@ } else if p == 0x04 { "-"@ } else if p == 0x05 { "*"@ } else if p == 0x06 { "/"@ } else if p == 0x07 { "^"@ }
+    else if p == 0x08 { "&"@ } else if p == 0x09 { "<"@ } else if p == 0x0A { "<="@ } else if p == 0x0B { "="@ } else if p == 0x0C { ">="@ }
+    else if p == 0x0D { ">"@ } else if p == 0x0E { "<>"@ } else if p == 0x0F { " "@ } else if p == 0x10 { ","@ } else { ":"@ }
+}
+/// [MS-XLSB] 2.5.97.2 BErr
+pub open spec fn err_text(e: int) -> Option<Seq<char>> {
+    if e == 0x00 { Some("#NULL!"@) } else if e == 0x07 { Some("#DIV/0!"@) } else if e == 0x0F { Some("#VALUE!"@) } else if e == 0x17 { Some("#REF!"@) }
+    else if e == 0x1D { Some("#NAME?"@) } else if e == 0x24 { Some("#NUM!"@) } else if e == 0x2A { Some("#N/A"@) } else if e == 0x2B { Some("#GETTING_DATA"@) }
+    else { None }
+}
+/// operand-class tokens exist in three data classes (bits 5-6 of the ptg: reference 0x20 / value 0x40 / array 0x60) with the same layout
+pub open spec fn ptg_base(p: int) -> int { if p >= 0x20 { p % 32 + 32 } else { p } }
+// the function table [MS-XLSB] 2.5.97.10 Ftab is data of the crate (utils::FTAB / FTAB_ARGC); it cannot be checked against the document here
+pub open spec fn ftab_name(i: int) -> Seq<char> { crate::utils::FTAB@[i]@ }
+pub open spec fn ftab_argc(i: int) -> int { crate::utils::FTAB_ARGC@[i] as int }
+/// a string literal in formula text: enclosed in double quotes, an embedded double quote is written twice
+pub open spec fn quoted(t: Seq<char>) -> Seq<char> { seq!['"'] + dq(t) + seq!['"'] }
+pub open spec fn dq(t: Seq<char>) -> Seq<char> decreases t.len() {
+    if t.len() == 0 { Seq::empty() } else if t.last() == '"' { dq(t.drop_last()) + seq!['"', '"'] } else { dq(t.drop_last()).push(t.last()) }
+}
+pub open spec fn has_quote(t: Seq<char>) -> bool { exists|i: int| 0 <= i < t.len() && t[i] == '"' }
+
+/// the token at the head of rg and its size in bytes.  None: truncated, undefined, or outside the oracle's scope: PtgExp (array / shared
+/// formula pointer), PtgArray (its values are in rgcb, which parse_formula is not given), PtgExtend (PtgList / PtgSxName), PtgAttrChoose and
+/// the PtgAttrSpace family, PtgMem* (sub-expression headers), PtgNameX, PtgRefN / PtgAreaN, user-defined functions (iftab 255), prompts /
+/// command-equivalent functions (fPrompt, fCeFunc), rows >= 2^20, strings that start with a byte-order mark (the decoder's BOM sniffing is the
+/// registered C19 finding of unit xlsbrec)
+pub open spec fn decode(rg: Seq<u8>, c: Ctx) -> Option<(Tok, int)> {
+    if rg.len() == 0 { None } else {
+        let p = rg[0] as int;
+        let d = rg.skip(1);
+        let b = ptg_base(p);
+        if p >= 0x80 { None }
+        else if 0x03 <= p <= 0x11 { Some((Tok::Binary(binop(p)), 1)) }
+        else if p == 0x12 { Some((Tok::Prefix('+'), 1)) }                                   // PtgUplus
+        else if p == 0x13 { Some((Tok::Prefix('-'), 1)) }                                   // PtgUminus
+        else if p == 0x14 { Some((Tok::Percent, 1)) }                                       // PtgPercent
+        else if p == 0x15 { Some((Tok::Paren, 1)) }                                         // PtgParen
+        else if p == 0x16 { Some((Tok::Operand(Seq::empty()), 1)) }                         // PtgMissArg
+        else if p == 0x17 {                                                                 // PtgStr: cch (2), rgch (cch UTF-16LE code units)
+            if d.len() >= 2 && d.len() >= 2 + 2 * le16(d) && !has_bom(d.subrange(2, 2 + 2 * le16(d))) {
+                Some((Tok::Operand(quoted(dec16(d.subrange(2, 2 + 2 * le16(d))))), 3 + 2 * le16(d)))
+            } else { None }
+        }
+        else if p == 0x19 {                                                                 // PtgAttr*: flags (1), data (2)
+            if d.len() >= 3 {
+                let e = d[0] as int;
+                if e == 0x01 || e == 0x02 || e == 0x08 || e == 0x20 || e == 0x21 { Some((Tok::Skip, 4)) }       // Semi, If, Goto, Baxcel
+                else if e == 0x10 { Some((Tok::Sum, 4)) }                                                       // Sum
+                else { None }
+            } else { None }
+        }
+        else if p == 0x1C { if d.len() >= 1 && err_text(d[0] as int) is Some { Some((Tok::Operand(err_text(d[0] as int)->Some_0), 2)) } else { None } }   // PtgErr
+        else if p == 0x1D { if d.len() >= 1 && d[0] <= 1 { Some((Tok::Operand(if d[0] == 0 { "FALSE"@ } else { "TRUE"@ }), 2)) } else { None } }       // PtgBool
+        else if p == 0x1E { if d.len() >= 2 { Some((Tok::Operand(dec(le16(d) as nat)), 3)) } else { None } }                                           // PtgInt: unsigned 16-bit
+        else if p == 0x1F { if d.len() >= 8 { Some((Tok::Operand(display::<f64>(f64_of_bits(le64(d)))), 9)) } else { None } }                         // PtgNum: Xnum (text of a double: uninterpreted)
+        else if b == 0x21 {                                                                 // PtgFunc: iftab (2); fixed parameter count from the table
+            if d.len() >= 2 && le16(d) < crate::utils::FTAB_LEN { Some((Tok::Func(ftab_name(le16(d)), ftab_argc(le16(d))), 3)) } else { None }
+        }
+        else if b == 0x22 {                                                                 // PtgFuncVar: cparams (7 bits) fPrompt (1), tab (15 bits) fCeFunc (1)
+            if d.len() >= 3 && d[0] < 128 && le16(d.skip(1)) < crate::utils::FTAB_LEN && le16(d.skip(1)) != 255 {
+                Some((Tok::Func(ftab_name(le16(d.skip(1))), d[0] as int), 4))
+            } else { None }
+        }
+        else if b == 0x23 {                                                                 // PtgName: nameindex (4), one-based index into the defined names
+            if d.len() >= 4 && 1 <= le32(d) <= c.names.len() { Some((Tok::Operand(c.names[le32(d) - 1]), 5)) } else { None }
+        }
+        else if b == 0x24 { if d.len() >= 6 && xb_row_ok(le32(d)) { Some((Tok::Operand(xb_cell(d)), 7)) } else { None } }                              // PtgRef: RgceLoc
+        else if b == 0x25 {                                                                 // PtgArea: RgceArea
+            if d.len() >= 12 && xb_row_ok(le32(d)) && xb_row_ok(le32(d.skip(4))) { Some((Tok::Operand(xb_area(d)), 13)) } else { None }
+        }
+        else if b == 0x2A { if d.len() >= 6 { Some((Tok::Operand("#REF!"@), 7)) } else { None } }                                                     // PtgRefErr
+        else if b == 0x2B { if d.len() >= 12 { Some((Tok::Operand("#REF!"@), 13)) } else { None } }                                                   // PtgAreaErr
+        else if b == 0x3A {                                                                 // PtgRef3d: ixti (2), RgceLoc
+            if d.len() >= 8 && le16(d) < c.sheets.len() && xb_row_ok(le32(d.skip(2))) {
+                Some((Tok::Operand(c.sheets[le16(d)] + seq!['!'] + xb_cell(d.skip(2))), 9))
+            } else { None }
+        }
+        else if b == 0x3B {                                                                 // PtgArea3d: ixti (2), RgceArea
+            if d.len() >= 14 && le16(d) < c.sheets.len() && xb_row_ok(le32(d.skip(2))) && xb_row_ok(le32(d.skip(6))) {
+                Some((Tok::Operand(c.sheets[le16(d)] + seq!['!'] + xb_area(d.skip(2))), 15))
+            } else { None }
+        }
+        else if b == 0x3C { if d.len() >= 8 && le16(d) < c.sheets.len() { Some((Tok::Operand(c.sheets[le16(d)] + seq!['!'] + "#REF!"@), 9)) } else { None } }    // PtgRefErr3d
+        else if b == 0x3D { if d.len() >= 14 && le16(d) < c.sheets.len() { Some((Tok::Operand(c.sheets[le16(d)] + seq!['!'] + "#REF!"@), 15)) } else { None } }  // PtgAreaErr3d
+        else { None }
+    }
+}
+/// arguments in order, separated by commas
+pub open spec fn join(a: Seq<Seq<char>>) -> Seq<char> decreases a.len() {
+    if a.len() == 0 { Seq::empty() } else if a.len() == 1 { a[0] } else { join(a.drop_last()) + seq![','] + a.last() }
+}
+/// the operand stack after the token (None: not enough operands)
+pub open spec fn apply(t: Tok, ops: Seq<Seq<char>>) -> Option<Seq<Seq<char>>> {
+    let n = ops.len() as int;
+    match t {
+        Tok::Operand(x) => Some(ops.push(x)),
+        Tok::Binary(op) => if n >= 2 { Some(ops.take(n - 2).push(ops[n - 2] + op + ops[n - 1])) } else { None },
+        Tok::Prefix(ch) => if n >= 1 { Some(ops.take(n - 1).push(seq![ch] + ops[n - 1])) } else { None },
+        Tok::Percent => if n >= 1 { Some(ops.take(n - 1).push(ops[n - 1] + seq!['%'])) } else { None },
+        Tok::Paren => if n >= 1 { Some(ops.take(n - 1).push(seq!['('] + ops[n - 1] + seq![')'])) } else { None },
+        Tok::Sum => if n >= 1 { Some(ops.take(n - 1).push("SUM("@ + ops[n - 1] + seq![')'])) } else { None },
+        Tok::Func(name, argc) => if 0 <= argc <= n { Some(ops.take(n - argc).push(name + seq!['('] + join(ops.skip(n - argc)) + seq![')'])) } else { None },
+        Tok::Skip => Some(ops),
+    }
+}
+/// one token: bytes consumed and the new operand stack
+pub open spec fn step(rg: Seq<u8>, ops: Seq<Seq<char>>, c: Ctx) -> Option<(int, Seq<Seq<char>>)> {
+    match decode(rg, c) {
+        Some((t, n)) => if 0 < n <= rg.len() { match apply(t, ops) { Some(o2) => Some((n, o2)), None => None } } else { None },
+        None => None,
+    }
+}
+/// the whole token stream, in evaluation order
+pub open spec fn run(rg: Seq<u8>, ops: Seq<Seq<char>>, c: Ctx) -> Option<Seq<Seq<char>>>
+    decreases rg.len()
+{
+    if rg.len() == 0 { Some(ops) } else {
+        match step(rg, ops, c) { Some((n, o2)) => run(rg.skip(n), o2, c), None => None }
+    }
+}
+pub open spec fn fin(o: Option<Seq<Seq<char>>>) -> Option<Seq<char>> {
+    match o { Some(ops) => if ops.len() == 1 { Some(ops[0]) } else { None }, None => None }
+}
+/// parse_formula is handed the bare token bytes (rgce) of a BrtFmla* / BrtName record.  The formula's text is the one operand left at the end.
+pub open spec fn render(rg: Seq<u8>, c: Ctx) -> Option<Seq<char>> { fin(run(rg, Seq::empty(), c)) }
+
+// ---- oracle sanity: the column letters everybody knows; decimal numerals; a rendered reference
+proof fn lemma_oracle_examples()
+    ensures
+        col_name(0) == seq!['A'], col_name(25) == seq!['Z'], col_name(26) == seq!['A', 'A'], col_name(255) == seq!['I', 'V'], col_name(16383) == seq!['X', 'F', 'D'],
+        dec(0) == seq!['0'], dec(7) == seq!['7'], dec(10) == seq!['1', '0'], dec(65536) == seq!['6', '5', '5', '3', '6'],
+        cell_text(2, 0x8001) == seq!['$', 'B', '3'], cell_text(2, 0x4001) == seq!['B', '$', '3'],
+        cell_text(0, 0xC000) == seq!['A', '1'], cell_text(0, 0) == seq!['$', 'A', '$', '1'],
+{
+    reveal_with_fuel(b26, 4);
+    reveal_with_fuel(dec, 6);
+    assert(col_name(0) =~= seq!['A']);
+    assert(col_name(25) =~= seq!['Z']);
+    assert(col_name(26) =~= seq!['A', 'A']);
+    assert(col_name(255) =~= seq!['I', 'V']);
+    assert(col_name(16383) =~= seq!['X', 'F', 'D']);
+    assert(dec(10) =~= seq!['1', '0']);
+    assert(dec(65536) =~= seq!['6', '5', '5', '3', '6']);
+    assert(col_name(1) =~= seq!['B']);
+    assert(dec(3) =~= seq!['3']);
+    assert(dec(1) =~= seq!['1']);
+    assert(cell_text(2, 0x8001) =~= seq!['$', 'B', '3']);
+    assert(cell_text(2, 0x4001) =~= seq!['B', '$', '3']);
+    assert(cell_text(0, 0xC000) =~= seq!['A', '1']);
+    assert(cell_text(0, 0) =~= seq!['$', 'A', '$', '1']);
+}
+// ---- the contract of push_column proved in unit colname determines the text: it is col_name(col)
+proof fn lemma_letter(d: int)
+    requires 0 <= d < 26,
+    ensures is_upper_c(letter(d)), letter_val_c(letter(d)) == d + 1,
+{}
+proof fn lemma_b26_unique(a: Seq<char>)
+    requires all_upper_c(a),
+    ensures a == b26(b26c(a)),
+    decreases a.len(),
+{
+    if a.len() == 0 {
+        assert(a =~= Seq::<char>::empty());
+    } else {
+        let t = a.drop_last();
+        assert forall|i: int| 0 <= i < t.len() implies is_upper_c(#[trigger] t[i]) by { assert(t[i] == a[i]); }
+        lemma_b26_unique(t);
+        let c = a.last();
+        assert(is_upper_c(a[a.len() - 1]));
+        let v = letter_val_c(c);
+        assert(1 <= v <= 26);
+        let n = b26c(a);
+        assert(n == b26c(t) * 26 + v);
+        assert((n - 1) / 26 == b26c(t) && (n - 1) % 26 == v - 1) by (nonlinear_arith) requires n == b26c(t) * 26 + v, 1 <= v <= 26, b26c(t) >= 0;
+        assert(letter((v - 1) as int) == c);
+        assert(b26(n) == b26(((n - 1) / 26) as nat).push(letter((n - 1) % 26)));
+        assert(a =~= t.push(c));
+    }
+}
+/// the three clauses of colname's contract (C14.column_letters_frame, _uppercase, column_letters) imply the equation assumed for the stub above
+proof fn lemma_colname_contract(o: Seq<char>, n: Seq<char>, col: u32)
+    requires
+        n.len() >= o.len() && n.subrange(0, o.len() as int) == o,
+        all_upper_c(appended(o, n)),
+        b26c(appended(o, n)) == col + 1,
+    ensures n == o + col_name(col as int),
+{
+    lemma_b26_unique(appended(o, n));
+    assert(n =~= n.subrange(0, o.len() as int) + appended(o, n));
+}
+
+// =====================================================================================================================
+// Lemmas about the String model
+// =====================================================================================================================
+proof fn lemma_blen_add(a: Seq<char>, b: Seq<char>)
+    ensures blen(a + b) == blen(a) + blen(b),
+    decreases b.len(),
+{
+    if b.len() == 0 { assert(a + b =~= a); }
+    else {
+        assert((a + b).drop_last() =~= a + b.drop_last());
+        assert((a + b).last() == b.last());
+        lemma_blen_add(a, b.drop_last());
+    }
+}
+proof fn lemma_blen_ge(a: Seq<char>)
+    ensures blen(a) >= a.len(),
+    decreases a.len(),
+{
+    if a.len() > 0 { lemma_blen_ge(a.drop_last()); }
+}
+proof fn lemma_blen_take_mono(s: Seq<char>, j: int, k: int)
+    requires 0 <= j <= k <= s.len(),
+    ensures blen(s.take(j)) + (k - j) <= blen(s.take(k)),
+{
+    assert(s.take(k) =~= s.take(j) + s.subrange(j, k));
+    lemma_blen_add(s.take(j), s.subrange(j, k));
+    lemma_blen_ge(s.subrange(j, k));
+}
+/// a boundary determines its char index
+proof fn lemma_cidx(s: Seq<char>, k: int)
+    requires 0 <= k <= s.len(),
+    ensures is_bnd(s, blen(s.take(k)) as int), cidx(s, blen(s.take(k)) as int) == k,
+{
+    let b = blen(s.take(k)) as int;
+    assert(is_bnd(s, b));
+    let c = cidx(s, b);
+    assert(0 <= c <= s.len() && blen(s.take(c)) == b);
+    if c < k { lemma_blen_take_mono(s, c, k); }
+    if c > k { lemma_blen_take_mono(s, k, c); }
+}
+proof fn lemma_split(a: Seq<char>, b: Seq<char>)
+    ensures
+        is_bnd(a + b, blen(a) as int), cidx(a + b, blen(a) as int) == a.len(),
+        (a + b).take(a.len() as int) == a, (a + b).skip(a.len() as int) == b,
+{
+    assert((a + b).take(a.len() as int) =~= a);
+    assert((a + b).skip(a.len() as int) =~= b);
+    lemma_cidx(a + b, a.len() as int);
+}
+/// is_bnd(s, b) with its witness
+proof fn lemma_bnd_idx(s: Seq<char>, b: int)
+    requires is_bnd(s, b),
+    ensures 0 <= cidx(s, b) <= s.len(), blen(s.take(cidx(s, b))) == b, 0 <= b <= blen(s),
+{
+    let k = cidx(s, b);
+    lemma_blen_take_mono(s, k, s.len() as int);
+    assert(s.take(s.len() as int) =~= s);
+}
+
+// =====================================================================================================================
+// (S) structural invariant of the renderer's state: the stack holds ascending char boundaries of the text  (no String panic: C06)
+// =====================================================================================================================
+#[verifier::opaque]
+#[verifier::opaque]
+pub open spec fn sorted_bnds(f: Seq<char>, st: Seq<usize>) -> bool {
+    &&& forall|i: int| 0 <= i < st.len() ==> is_bnd(f, #[trigger] st[i] as int)
+    &&& forall|i: int, j: int| 0 <= i <= j < st.len() ==> st[i] <= st[j]
+}
+/// every arm keeps the text in front of some stack entry (or the whole text), cuts the stack there, and may push that offset again
+proof fn lemma_struct(f: Seq<char>, st: Seq<usize>, j: int, f_out: Seq<char>, st_out: Seq<usize>)
+    ensures
+        ({
+            let b = if 0 <= j < st.len() { st[j] as int } else { blen(f) as int };
+            let k = cidx(f, b);
+            sorted_bnds(f, st) && 0 <= j <= st.len() && f_out.len() >= k && f_out.take(k) =~= f.take(k)
+                && (st_out =~= st.take(j) || (b <= usize::MAX && st_out =~= st.take(j).push(b as usize)))
+        }) ==> sorted_bnds(f_out, st_out),
+{
+    reveal(sorted_bnds);
+    let b = if 0 <= j < st.len() { st[j] as int } else { blen(f) as int };
+    let k = cidx(f, b);
+    if sorted_bnds(f, st) && 0 <= j <= st.len() && f_out.len() >= k && f_out.take(k) =~= f.take(k)
+        && (st_out =~= st.take(j) || (b <= usize::MAX && st_out =~= st.take(j).push(b as usize))) {
+        if j < st.len() { assert(is_bnd(f, st[j] as int)); } else { assert(f.take(f.len() as int) =~= f); assert(is_bnd(f, b)); }
+        lemma_bnd_idx(f, b);
+        // b is a boundary of f_out
+        assert(f_out.take(k) == f.take(k));
+        assert(is_bnd(f_out, b));
+        assert forall|i: int| 0 <= i < st_out.len() implies is_bnd(f_out, #[trigger] st_out[i] as int) by {
+            if i < j {
+                assert(st_out[i] == st[i]);
+                assert(is_bnd(f, st[i] as int));
+                lemma_bnd_idx(f, st[i] as int);
+                let ki = cidx(f, st[i] as int);
+                // st[i] <= b, so its index is <= k and the prefix is shared
+                if j < st.len() { assert(st[i] <= st[j]); } else { }
+                if ki > k { lemma_blen_take_mono(f, k, ki); }
+                assert(f_out.take(ki) =~= f.take(k).take(ki));
+                assert(f.take(ki) =~= f.take(k).take(ki));
+            }
+        }
+        assert forall|i: int, l: int| 0 <= i <= l < st_out.len() implies st_out[i] <= st_out[l] by {
+            if l < j { assert(st_out[i] == st[i] && st_out[l] == st[l]); }
+            else if i < j {
+                assert(st_out[i] == st[i]);
+                if j < st.len() { assert(st[i] <= st[j]); } else { assert(is_bnd(f, st[i] as int)); lemma_bnd_idx(f, st[i] as int); }
+            }
+        }
+    }
+
+}
+
+/// what (S) says about one stack entry
+proof fn lemma_sb_at(f: Seq<char>, st: Seq<usize>, i: int)
+    requires sorted_bnds(f, st), 0 <= i < st.len(),
+    ensures
+        is_bnd(f, st[i] as int), 0 <= cidx(f, st[i] as int) <= f.len(), blen(f.take(cidx(f, st[i] as int))) == st[i], st[i] <= blen(f),
+        forall|i2: int| i <= i2 < st.len() ==> st[i] <= #[trigger] st[i2],
+        forall|i2: int| 0 <= i2 < st.len() ==> is_bnd(f, #[trigger] st[i2] as int),
+{
+    reveal(sorted_bnds);
+    lemma_bnd_idx(f, st[i] as int);
+}
+proof fn lemma_sb_empty(f: Seq<char>)
+    ensures sorted_bnds(f, Seq::<usize>::empty()),
+{ reveal(sorted_bnds); }
+/// bit masks of the code, in the arithmetic of the oracle
+proof fn lemma_byte_masks()
+    ensures
+        forall|b: u8| #![trigger b & 0x3F] (b & 0x3F) as int == (b as int) % 64,
+        forall|b: u8| #![trigger b & 0x80] (b & 0x80 != 0x80) == ((b as int) / 128 == 0),
+        forall|b: u8| #![trigger b & 0x40] (b & 0x40 != 0x40) == (((b as int) / 64) % 2 == 0),
+{
+    assert forall|b: u8| #![trigger b & 0x3F] (b & 0x3F) as int == (b as int) % 64 by { assert(b & 0x3F == b % 64) by (bit_vector); }
+    assert forall|b: u8| #![trigger b & 0x80] (b & 0x80 != 0x80) == ((b as int) / 128 == 0) by { assert((b & 0x80 != 0x80) == (b / 128 == 0)) by (bit_vector); }
+    assert forall|b: u8| #![trigger b & 0x40] (b & 0x40 != 0x40) == (((b as int) / 64) % 2 == 0) by { assert((b & 0x40 != 0x40) == ((b / 64) % 2 == 0)) by (bit_vector); }
+}
+
+/// a boundary at or behind another one is a boundary of the text that starts there
+proof fn lemma_bnd_shift(f: Seq<char>, start: int, b: int)
+    requires is_bnd(f, start), is_bnd(f, b), start <= b,
+    ensures
+        cidx(f, start) <= cidx(f, b),
+        is_bnd(f.skip(cidx(f, start)), b - start),
+        cidx(f.skip(cidx(f, start)), b - start) == cidx(f, b) - cidx(f, start),
+{
+    lemma_bnd_idx(f, start); lemma_bnd_idx(f, b);
+    let k0 = cidx(f, start); let kb = cidx(f, b);
+    if kb < k0 { lemma_blen_take_mono(f, kb, k0); if start == b { lemma_cidx(f, kb); lemma_cidx(f, k0); } }
+    if kb < k0 { assert(false) by { lemma_blen_take_mono(f, kb, k0); lemma_cidx(f, kb); lemma_cidx(f, k0); } }
+    let g = f.skip(k0);
+    assert(f.take(kb) =~= f.take(k0) + f.subrange(k0, kb));
+    lemma_blen_add(f.take(k0), f.subrange(k0, kb));
+    assert(g.take(kb - k0) =~= f.subrange(k0, kb));
+    lemma_cidx(g, kb - k0);
+}
+
 pub mod m {
 use super::*;
 verus! {
 //@@ fn src/xlsb/mod.rs parse_formula props=C14 entry ret=res r13 mutparams
 //@@ sig
     decreases __p_rgce@.len(),
+//@@ body
+    let ghost ctx = mk_ctx(sheets@, names@);
+//@@ before /while !rgce\.is_empty\(\)/
+    proof { lemma_sb_empty(formula@); }
 //@@ loop 0
         invariant
+            ctx == mk_ctx(sheets@, names@),
             rgce@.len() <= __p_rgce@.len(),
+            //# C06.stack_offsets_are_char_boundaries
+            sorted_bnds(formula@, stack@),
         decreases rgce@.len(),
+//@@ before /let ptg = rgce\[0\];/
+        let ghost rg_in = rgce@;
+        let ghost f_in = formula@;
+        let ghost st_in = stack@;
+        proof {
+            lemma_byte_masks();
+            lemma_cidx(f_in, f_in.len() as int);
+            assert(f_in.take(f_in.len() as int) =~= f_in);
+            if st_in.len() > 0 { lemma_sb_at(f_in, st_in, st_in.len() - 1); }
+        }
+//@@ before /let mut args = stack\.split_off/
+                    proof { lemma_sb_at(f_in, st_in, args_start as int); }
+//@@ before /for s in &mut args/
+                    let ghost a0 = args@;
+                    let ghost k0 = cidx(f_in, start as int);
+                    proof { assert(a0 =~= st_in.skip(args_start as int)); }
+//@@ loop 1 it1
+                        invariant
+                            it1.seq().len() == a0.len(),
+                            forall|i: int| 0 <= i < a0.len() ==> *(#[trigger] it1.seq()[i]) == a0[i],
+                            forall|i: int| 0 <= i < a0.len() ==> #[trigger] a0[i] >= start,
+                            forall|i: int| 0 <= i < it1.index@ ==> *final(#[trigger] it1.seq()[i]) == a0[i] - start,
+//@@ before /let fargs = formula\.split_off/
+                    proof { assert(forall|i: int| 0 <= i < a0.len() ==> args@[i] == #[trigger] a0[i] - start); }
+//@@ before /for w in args\.windows/
+                    let ghost fa = fargs@;
+                    proof {
+                        assert(fa == f_in.skip(k0));
+                        assert forall|i: int| 0 <= i < args@.len() implies is_bnd(fa, #[trigger] args@[i] as int) by {
+                            if i < a0.len() {
+                                assert(a0[i] == st_in[args_start + i]);
+                                lemma_bnd_shift(f_in, start as int, a0[i] as int);
+                            } else {
+                                lemma_cidx(fa, fa.len() as int);
+                                assert(fa.take(fa.len() as int) =~= fa);
+                            }
+                        }
+                        assert forall|i: int, j: int| 0 <= i <= j < args@.len() implies args@[i] <= args@[j] by {
+                            if j < a0.len() { assert(a0[i] == st_in[args_start + i] && a0[j] == st_in[args_start + j]); reveal(sorted_bnds); }
+                            else if i < a0.len() { assert(a0[i] == st_in[args_start + i]); lemma_bnd_shift(f_in, start as int, a0[i] as int); lemma_bnd_idx(fa, a0[i] - start); }
+                        }
+                    }
+//@@ loop 2 it2
+                        invariant
+                            win_from(args@, 2, 0, it2.seq()),
+                            forall|i: int| 0 <= i < args@.len() ==> is_bnd(fa, #[trigger] args@[i] as int),
+                            forall|i: int, j: int| 0 <= i <= j < args@.len() ==> args@[i] <= args@[j],
+                            fargs@ == fa,
+                            formula@.len() > k0 && formula@.take(k0) == f_in.take(k0),
+//@@ before /\}\s*if stack\.len\(\) == 1/
+        proof {
+            // (S)
+            lemma_struct(f_in, st_in, stack@.len() as int, formula@, stack@);
+            lemma_struct(f_in, st_in, stack@.len() - 1, formula@, stack@);
+        }
 //@@ end
 }
 }
